@@ -856,6 +856,9 @@ func c18Dispatch(c *Ctx, ag ctrlAgent) {
 				// command echo
 				cmdOK := strings.HasSuffix(d.cmd, ".Command") && strings.Contains(d.cmd, "PeekIncoming()")
 				if !cmdOK && hasCmd {
+					if vn, isNum := valVerb[d.cmd]; isNum && len(verbs) == 1 && verbs[0] == vn {
+						cmdOK = true // a constant passed through a helper's parameter
+					}
 					for _, v := range verbs {
 						if strings.HasSuffix(d.cmd, "."+v) || d.cmd == v {
 							cmdOK = len(verbs) == 1
